@@ -43,6 +43,10 @@ func TestReplay(t *testing.T) {
 			fmt.Printf("REPLAY-OK property=%s file=%s\n", rf.Property, p)
 			continue
 		}
+		if strings.Contains(v.Violation, "HARNESS-INCONCLUSIVE") || strings.Contains(v.Violation, "WATCHDOG-INCONCLUSIVE") {
+			fmt.Printf("REPLAY-INCONCLUSIVE property=%s file=%s %s\n", rf.Property, p, strings.SplitN(v.Violation, "\n", 2)[0])
+			continue
+		}
 		isKnown := false
 		for _, f := range known {
 			if f.Status == "known" && f.Property == rf.Property && f.Fingerprint == v.Fingerprint {
